@@ -212,9 +212,10 @@ class Case:
                 rec.update(extra(tn0, tn))
             self.tn = tn
         except Exception as ex:  # noqa
-            if reject_ok:
-                # the operation is documented to need more than this input offers (e.g. invertible gauges on a
-                # rank-deficient bond): a loud refusal, not an observation of the property
+            if reject_ok or (type(ex).__name__ == "LinAlgError" and "infs or NaNs" in str(ex)):
+                # the operation needs more than this input offers (invertible gauges: an exactly rank-deficient bond
+                # with cutoff=0 makes simple-update gauging divide by a zero gauge and LAPACK refuses the non-finite
+                # matrix): a loud numerical refusal, not an observation of the property
                 self.rejected = getattr(self, "rejected", 0) + 1
                 self.dead = True
                 return
@@ -517,18 +518,20 @@ def run(ctx):
 
     ncases, nsteps = (240, 3) if quick else (1500, 4)
     dtypes = ["float64", "complex128", "float32", "complex64"]
-    recs, names, imprecise = [], {}, 0
+    recs, names, imprecise, cases = [], {}, 0, []
     for k in range(ncases):
         c = Case(rng, k, dtypes[k % 4] if k % 5 else "float64", GEOMS[k % len(GEOMS)])
         for _ in range(nsteps):
             c.step()
         recs += c.recs
+        cases.append(c)
         imprecise += c.imprecise
     for rr in recs:
         if rr["ev"] == "rewrite":
             names[rr["name"]] = names.get(rr["name"], 0) + 1
     ctx.extra["rewrites_exercised"] = names
     ctx.extra["imprecise_skipped"] = imprecise
+    ctx.extra["loud_numerical_refusals"] = sum(getattr(c_, "rejected", 0) for c_ in cases)
     ctx.sample({"trace": [{k: v for k, v in r_.items() if k not in ("net", "result")} for r_ in recs[:4]]})
     fails = ctx.validate("C04_Trace", "Trace.cfg", recs, name="rewrites", ntraces=ncases, chunk=5000)
     ctx.clauses.update(["Returns", "OnGrid", "ValuePreserved", "OuterSame", "IsoClaimSound", "BondNotLarger", "CanonicalRegion",
